@@ -62,7 +62,7 @@ OPTION_SETS = [
 
 
 def sample(sid, rng):
-    s = {"sid": sid, "name": rng.choice(["a", "b", "1", "2020-01-02"]), "n": rng.choice([1, 2.5, None, "7"])}
+    s = {"sid": sid, "name": rng.choice(["a", "b", "1", "2020-01-02", "2020-01-02T10:20:30"]), "n": rng.choice([1, 2.5, None, "7"])}
     if rng.random() < 0.5:
         s["child"] = {"x": rng.choice([1, "s"]), "tags": rng.choice([[], ["t"], [1]])}
     if rng.random() < 0.3:
@@ -421,8 +421,10 @@ def dict_option_cases(rng, n):
     """objects whose key sets match a pattern fully, only as a prefix, partially or not at all; at field, list-element and
     dict-value positions"""
     cases = []
-    pats = [["k\\d"], ["k"], ["[a-z]+"], ["id_.*", "x"], ["k\\d", "n.*"], [".*"], ["k1|k2"]]
-    keysets = [["k1", "k2"], ["k1", "kx"], ["k", "k1"], ["k12", "k3"], ["name", "n"], ["id_1", "id_2"], ["x"], ["xy"], ["k1"], ["K1"], ["k1 "]]
+    pats = [["k\\d"], ["k"], ["[a-z]+"], ["id_.*", "x"], ["k\\d", "n.*"], [".*"], ["k1|k2"],
+            ["\\d+", "[0-9a-f]+"], ["k\\d", "k.*"], ["k1", "k\\d", "k.+"], ["[0-9a-f]+", "\\d+"]]       # overlapping lists: order matters
+    keysets = [["k1", "k2"], ["k1", "kx"], ["k", "k1"], ["k12", "k3"], ["name", "n"], ["id_1", "id_2"], ["x"], ["xy"], ["k1"], ["K1"], ["k1 "],
+               ["10", "ff"], ["ff", "10"], ["k1", "kx", "k2"], ["kx", "k1"]]
     for _ in range(n):
         dkr = rng.choice(pats)
         ks = rng.choice(keysets)
